@@ -33,10 +33,8 @@ func installTrackHook() {
 			if int64(n) > *p {
 				*p = int64(n)
 			}
-		} else {
-			x := int64(n)
-			trackMax.Store(re, &x)
 		}
+		// Regexps that were not registered by callUnder are not tracked (and so not kept alive)
 	})
 }
 
@@ -71,6 +69,8 @@ func callUnder(src string, opts, limit int, runes []rune) (res limRes, re *regex
 	if err != nil {
 		return res, nil, err
 	}
+	none := int64(-1)
+	trackMax.Store(re, &none)
 	p, st := core.Guard(func() {
 		m, e := re.FindRunesMatch(runes)
 		if e != nil {
@@ -126,6 +126,13 @@ func limitLaws(src string, opts int, runes []rune, quick bool, st func(string)) 
 			return "", "unlimited-run-" + v, 0, 0
 		}
 	}
+	// what a fresh Regexp answers to the control call
+	freshCtl, freshOK := "", false
+	if fresh, _ := compileLimit(src, opts, -1); fresh != nil {
+		if want, e2 := fresh.FindStringMatch("ab"); e2 == nil {
+			freshCtl, freshOK = mon.ObsAll(want), true
+		}
+	}
 	judge := func(L int) (ok bool, success bool, detail string) {
 		res, re, err := callUnder(src, opts, L, runes)
 		if err != nil {
@@ -154,12 +161,8 @@ func limitLaws(src string, opts int, runes []rune, quick bool, st func(string)) 
 		}
 		// the Regexp stays fully usable: a control call equals a fresh Regexp's answer
 		ctl, e1 := re.FindStringMatch("ab")
-		fresh, _ := compileLimit(src, opts, -1)
-		if fresh != nil {
-			want, e2 := fresh.FindStringMatch("ab")
-			if e1 == nil && e2 == nil && mon.ObsAll(ctl) != mon.ObsAll(want) {
-				return false, false, fmt.Sprintf("limit %d: after the limited call the control call on \"ab\" gives %s, a fresh Regexp gives %s", L, mon.ObsAll(ctl), mon.ObsAll(want))
-			}
+		if e1 == nil && freshOK && mon.ObsAll(ctl) != freshCtl {
+			return false, false, fmt.Sprintf("limit %d: after the limited call the control call on \"ab\" gives %s, a fresh Regexp gives %s", L, mon.ObsAll(ctl), freshCtl)
 		}
 		return true, success, ""
 	}
